@@ -394,11 +394,12 @@ macro_rules! op_rule {
 
 op_rule!(op_6, op_7, alt((tag("*"), tag("/"), tag("%"),)));
 op_rule!(op_5, op_6, alt((tag("+"), tag("-"))));
-op_rule!(op_4_1, op_5, alt((tag("<<"), tag(">>"), tag(">>>"))));
+// a tag that is a prefix of another one must come after it: alt takes the first match
+op_rule!(op_4_1, op_5, alt((tag("<<"), tag(">>>"), tag(">>"))));
 op_rule!(
     op_4,
     op_4_1,
-    alt((tag(">"), tag(">="), tag("<"), tag("<=")))
+    alt((tag(">="), tag(">"), tag("<="), tag("<")))
 );
 op_rule!(
     op_3,
@@ -409,7 +410,8 @@ op_rule!(op_2_5, op_3, tag("&"));
 op_rule!(op_2_4, op_2_5, tag("^"));
 op_rule!(op_2_3, op_2_4, tag("|"));
 op_rule!(op_2, op_2_3, alt((tag("&&"), tag_no_case("and"))));
-op_rule!(op_1, op_2, alt((tag("||"), tag_no_case("or"))));
+op_rule!(op_1_5, op_2, alt((tag("^^"), tag_no_case("xor"))));
+op_rule!(op_1, op_1_5, alt((tag("||"), tag_no_case("or"))));
 
 rule!(op_if(i) -> Value, {
     map(
